@@ -9,7 +9,7 @@ from fractions import Fraction
 from .bits import is_power_of_two
 
 _DECIMAL_PATTERN = re.compile(r'([-+])?([0-9]+(\.[0-9]+)?|\.[0-9]+)(e([-+]?[0-9]+))?')
-_HEXNUM_PATTERN = re.compile(r'([-+])?0x([0-9a-f]+(\.[0-9a-f]+)?|\.[0-9a-f]+)(p([-+]?[0-9]+))?')
+_HEXNUM_PATTERN = re.compile(r'([-+])?0x([0-9a-f]+(\.[0-9a-f]*)?|\.[0-9a-f]+)(p([-+]?[0-9]+))?', re.IGNORECASE)
 
 def digits_to_fraction(m: int, e: int, b: int):
     """Converts a mantissa, exponent, and base to a fraction."""
@@ -119,7 +119,7 @@ def hexnum_to_fraction(s: str):
         parts = mant.split('.')
         assert len(parts) == 2
         i = '0' if parts[0] == '' else parts[0]
-        f = parts[1]
+        f = parts[1] if parts[1] != '' else None    # `0x1.p3`
     else:
         i = mant
         f = None
